@@ -1022,8 +1022,18 @@ func (e *Explorer) Explore() (complete bool) {
 	return true
 }
 
-func (e *Explorer) over() bool {
-	return !e.RealStop.IsZero() && time.Now().After(e.RealStop)
+// ResourceStop, when set, is asked before every execution whether exploration must stop for lack
+// of a resource (the workers set it to their memory guard); a non-empty answer is reported as a cap.
+var ResourceStop func() string
+
+func (e *Explorer) over() string {
+	if !e.RealStop.IsZero() && time.Now().After(e.RealStop) {
+		return "real-time budget"
+	}
+	if ResourceStop != nil {
+		return ResourceStop()
+	}
+	return ""
 }
 
 // explore runs prefix and recurses into every alternative after it whose
@@ -1032,8 +1042,8 @@ func (e *Explorer) over() bool {
 // (lower ones were counted at earlier levels and are only re-walked).
 // It returns the clause fired at dupIdx (or -1) and false if exploration must stop.
 func (e *Explorer) explore(prefix []int, dupIdx int, dupSeen []int, spent int, bound int) (int, bool) {
-	if e.over() {
-		e.CapHit = "real-time budget"
+	if why := e.over(); why != "" {
+		e.CapHit = why
 		return -1, false
 	}
 	r := e.RunOne(prefix, dupIdx, dupSeen)
